@@ -404,8 +404,11 @@ class Histogram1D(ObjectWithBinning, HistogramBase):
             if self.keep_missed:
                 self.overflow += weight
         else:
+            # The square is taken of the python number, before anything is changed
+            # (a huge weight raises here, a narrow numpy integer does not wrap around).
+            weight2 = (weight.item() if isinstance(weight, np.generic) else weight) ** 2
+            self._errors2[ixbin] += weight2
             self._frequencies[ixbin] += weight
-            self._errors2[ixbin] += weight**2
             try:
                 self._stats = dataclasses.replace(
                     self.statistics,
